@@ -57,9 +57,36 @@ Proof.
     rewrite <- nth_last_idx. exact (proj1 (is_zero_spec_lemma AZ_eqb_spec vz) Z _). }
   pose proof (Forall_cb V vz V0 HV) as CV. pose proof (Forall_cb U uz U0 HU) as CU.
   destruct (polydiv_total_gen (A := AZ) eq_refl uz vz Nv Zv (monic_div_lead vz Lead) Lu) as (q0 & r0 & E0 & Hr0).
-  pose proof (polydiv_fits_monic vz Nv Lead V CV uz U U0 CU HB) as Hf.
+  pose proof (polydiv_fits_of_bounds vz Nv Lnz V CV uz U U0 CU HB) as Hf.
   destruct (polydiv_exact_float_run_lemma u v uz vz q0 r0 Hu Hv Hf E0) as (q & r & E & Hq & Hr).
   destruct (polydiv_Z_identity_lemma uz vz q0 r0 E0) as [Id Sm].
   exists q, r, q0, r0. repeat (split; [assumption|]).
+  intros q1 r1 Id1 Sm1. exact (polydiv_Z_unique_lemma uz vz q0 r0 q1 r1 Nv Lnz Id Sm Id1 Sm1).
+Qed.
+
+(* any nonzero leading coefficient (e.g. a power of two): IF the integer division goes through -- every quotient term is an
+   exact integer division -- the same size condition suffices, and the float division returns the images of the integer
+   quotient and remainder, which are the unique pair with u = q0 v + r0 and r0 zero or shorter than v *)
+Lemma polydiv_exact_float_exactdiv_lemma (u v : list PrimFloat.float) (uz vz q0 r0 : list Z) (U V : Z) :
+  Forall2 ExactW u uz -> Forall2 ExactW v vz -> vz <> [] -> last vz 0 <> 0 ->
+  0 <= U -> Forall (fun a => Z.abs a <= U) uz -> Forall (fun b => Z.abs b <= V) vz ->
+  U * (1 + V) ^ Z.of_nat (length uz - length vz + 1) < 2 ^ 53 ->
+  polydiv (A := AZ) uz vz = Ok (inl (q0, r0)) ->
+  exists q r, polydiv (A := AF) u v = Ok (inl (q, r)) /\ Forall2 ExactW q q0 /\ Forall2 ExactW r r0 /\
+    (forall k, nth k uz 0 = nth k (padd (A := AZ) (pmul (A := AZ) q0 vz) r0) 0) /\
+    (is_zero (A := AZ) r0 = true \/ (length r0 < length vz)%nat) /\
+    (forall q1 r1 : list Z,
+       (forall k, nth k uz 0 = nth k (padd (A := AZ) (pmul (A := AZ) q1 vz) r1) 0) ->
+       (is_zero (A := AZ) r1 = true \/ (length r1 < length vz)%nat) ->
+       (forall k, nth k q0 0 = nth k q1 0) /\ (forall k, nth k r0 0 = nth k r1 0)).
+Proof.
+  intros Hu Hv Nv Lnz U0 HU HV HB E0.
+  assert (V0 : 0 <= V).
+  { destruct vz as [|b t]; [congruence|]. inversion HV; subst. pose proof (Z.abs_nonneg b). lia. }
+  pose proof (Forall_cb V vz V0 HV) as CV. pose proof (Forall_cb U uz U0 HU) as CU.
+  pose proof (polydiv_fits_of_bounds vz Nv Lnz V CV uz U U0 CU HB) as Hf.
+  destruct (polydiv_exact_float_run_lemma u v uz vz q0 r0 Hu Hv Hf E0) as (q & r & E & Hq & Hr).
+  destruct (polydiv_Z_identity_lemma uz vz q0 r0 E0) as [Id Sm].
+  exists q, r. repeat (split; [assumption|]).
   intros q1 r1 Id1 Sm1. exact (polydiv_Z_unique_lemma uz vz q0 r0 q1 r1 Nv Lnz Id Sm Id1 Sm1).
 Qed.
